@@ -31,6 +31,7 @@ func (c08) Cases(tier string, seed int64, kf *KnownFindings) []Case {
 	var cs []Case
 	add := func(c Case) { c.Sub = -1; cs = append(cs, c) }
 	add(Case{Kind: "table"})
+	add(Case{Kind: "bulk", Seed: Mix(seed, 4243)})
 	if tier == "quick" {
 		add(Case{Kind: "ints", A: -70000, B: -35000})
 		add(Case{Kind: "ints", A: -35000, B: 0})
@@ -253,6 +254,9 @@ func (c08) Run(c Case, env *Env) Result {
 		res.Sample(map[string]interface{}{"kind": "random 64-bit patterns", "seed": c.Seed, "count": c.Count})
 	case "fields":
 		c08fields(c, env, &res)
+	case "bulk":
+		bulkCheck(env, &res, c, "double")
+		res.Sample(map[string]interface{}{"kind": "bulk", "what": "long lists of doubles/floats and scalars behind 4070..4100 bytes of padding"})
 	}
 	return res
 }
